@@ -34,6 +34,7 @@ type caseIn struct {
 	Raw        string        `json:"raw"`         // stream "raw" only: hex of the input bytes (val is null)
 	Fn         string        `json:"fn"`          // stream "glue" only: wrapper of api_host.pb.go
 	Side       string        `json:"side"`        // stream "glue" only: req | resp | log
+	Val2       []interface{} `json:"val2"`        // stream "concat" only: the second value
 }
 
 func deepEq(a, b interface{}) bool { return reflect.DeepEqual(a, b) }
